@@ -66,16 +66,21 @@ def last_sets(last: str):
     return sorted(p.rsplit("@", 1)[0] for p in last.split(";"))
 
 def classify_kinds(kinds):
-    """which recorded kind of drift a failure belongs to (None: not a recorded one)"""
+    """which recorded kind of drift a failure belongs to (None: not a recorded one).  Only differences of the RESULT
+    (algebra, dependents, closure of the vertices) can be drift; a raise, a wrong last frame or an unfinished run never is."""
     ks = set(kinds)
-    if ks & {"raise", "last", "final", "incomplete", "deps>", "algraise"}:
+    if not ks or ks & {"raise", "last", "final", "incomplete", "algraise"}:
         return None
     if "clo" in ks:
         return "wrong-closure"
-    if "alg" in ks and "deps<" in ks:
-        return "overcount"
+    if "alg" in ks:
+        return "overcount" if "deps<" in ks else "other-algebra"
     if ks == {"deps~"}:
         return "other-dependents"
+    if ks == {"deps<"}:
+        return "missing-dependents"
+    if ks == {"deps>"}:
+        return "extra-dependents"
     return None
 
 def kinds_of(plain: str, rec: str, inv_eq, clo_eq):
